@@ -362,7 +362,7 @@ func genC10(g *Gen, tier string, emit func(op string, args ...string)) {
 		emit("string", hx(g.Bytes(g.Pick(0, 1, 10, 252, 253, 254, 300))))
 		emit("bytes", hx(g.Bytes(g.Pick(0, 1, 10, 252, 253, 254, 300))))
 		// IPs of length 0..20 incl. v4-mapped
-		ip := g.Bytes(g.Pick(0, 3, 4, 4, 5, 15, 16, 16, 17, 20))
+		ip := g.Bytes(g.Pick(0, 3, 4, 4, 5, 15, 16, 16, 17, 20, g.Intn(24)))
 		if len(ip) == 16 && g.Chance(1, 2) {
 			copy(ip, []byte{0, 0, 0, 0, 0, 0, 0, 0, 0, 0, 0xff, 0xff})
 			if g.Chance(1, 4) {
@@ -371,7 +371,7 @@ func genC10(g *Gen, tier string, emit func(op string, args ...string)) {
 		}
 		emit("ipaddr", hx(ip))
 		emit("ipv6addr", hx(ip))
-		emit("ifid", hx(g.Bytes(g.Pick(0, 6, 7, 8, 8, 8, 9, 16))))
+		emit("ifid", hx(g.Bytes(g.Pick(0, 6, 7, 8, 8, 8, 9, 16, g.Intn(20)))))
 		var sec int64
 		switch g.Intn(5) {
 		case 0:
